@@ -21,7 +21,7 @@ ASSUME = [
     "float comparison is bit-exact (struct pack), int/float/str types are compared strictly",
 ]
 
-INTS = {0: 0, 1: 7, 2: 12, 3: -3, 4: 2 ** 62}
+INTS = {0: 0, 1: 7, 2: 12, 3: -3, 4: 2 ** 62 + 1}      # id 4 has more than 53 significant bits: not a float
 FLOATS = {0: 1.5, 1: 1e-5, 2: 0.1 + 0.2, 3: -2.5e300}
 PLAIN = {0: "ab", 1: "xy", 2: "x-y.z", 99: "None"}
 
